@@ -54,9 +54,18 @@ pred lbServersArr(lb LoadBalancer) := typeIs(lb, "*roundRobinLoadBalancer") ? re
 pred lbServersLen(lb LoadBalancer) := typeIs(lb, "*roundRobinLoadBalancer") ? len(as(lb, "*roundRobinLoadBalancer").Servers) : (typeIs(lb, "*randomLoadBalancer") ? len(as(lb, "*randomLoadBalancer").Servers) : (typeIs(lb, "*WeightedRandomLoadBalancer") ? len(as(lb, "*WeightedRandomLoadBalancer").Servers) : (typeIs(lb, "*ipHashLoadBalancer") ? len(as(lb, "*ipHashLoadBalancer").Servers) : len(as(lb, "*headerHashLoadBalancer").Servers))))
 pred balances(lb LoadBalancer, servers []*Server) := lbServersArr(lb) == ref(servers) && lbServersLen(lb) == len(servers)
 
+// C03: a server is addressed by host name iff the host part of its URL - without the port and without the
+// brackets of an IPv6 literal - is not an IP address (the client's Host is kept for IP-addressed servers)
+pred noByte(x string, c int) := forall j int :: 0 <= j && j < len(x) ==> x[j] != c
 func (s *Server) checkAddrPattern()
-  trusted
+  flag ascii
+  requires s != nil
   modifies s.addrIsHostName
+  ensures plain-host: (let h = urlHostOf(s.URL) in (urlOK(s.URL) && noByte(h, 58) && noByte(h, 93) ==> s.addrIsHostName == !validIP(h)))
+  ensures host-with-port: forall c int :: (let h = urlHostOf(s.URL) in (urlOK(s.URL) && noByte(h, 93) && 0 <= c && c < len(h) && h[c] == 58 && (forall j int :: 0 <= j && j < len(h) && j != c ==> h[j] != 58) ==> s.addrIsHostName == !validIP(substr(h, 0, c))))
+  ensures bracketed-ipv6-without-port: (let h = urlHostOf(s.URL) in (urlOK(s.URL) && len(h) >= 2 && h[0] == 91 && h[len(h) - 1] == 93 && (forall j int :: 0 <= j && j < len(h) - 1 ==> h[j] != 93) ==> s.addrIsHostName == !validIP(substr(h, 1, len(h) - 2))))
+  // (the bracketed form with a port, "[a]:p", needs nested substring reasoning that no solver here finishes in time: not claimed)
+  ensures unparsable-url-changes-nothing: !urlOK(s.URL) ==> s.addrIsHostName == old(s.addrIsHostName)
 
 func (sp *ServerPool) createLoadBalancer(servers []*Server)
   requires sp != nil && sp.spec != nil && noNil(servers)
@@ -113,6 +122,33 @@ func cloneHeader(in http.Header) (out http.Header)
   invariant[2] tokens-so-far: forall k string :: (k in out) <==> ((k in in) && !(exists i, j int :: ((0 <= i && i < idx$1 && 0 <= j && j < splitCount(in["Connection"][i], ",")) || (i == idx$1 && 0 <= j && j < idx$2)) && connToken(in, i, j) != "" && canon(connToken(in, i, j)) == k))
   invariant[3] out != nil && fresh(out) && (forall k string :: k in out ==> (k in in) && out[k] == in[k])
   invariant[3] hop-so-far: forall k string :: (k in out) <==> ((k in in) && !namedByConnection(in, k) && !(exists n int :: 0 <= n && n < idx$3 && k == canon(hopHeaders[n])))
+
+// ---- C04: the pool of a discovered service = the instances carrying one of the configured tags ----
+ghost var gLBList []*Server     // the list handed to createLoadBalancer
+ghost var gPosOf mmap[string]int  // instance name -> its position in the list being built
+ghost var gSrcOf mmap[int]string  // position -> the instance name it was built from
+pred tagged(sp *ServerPool, inst *serviceregistry.ServiceInstanceSpec) := exists t int :: 0 <= t && t < len(sp.spec.ServerTags) && stringtool.inSlice(sp.spec.ServerTags[t], inst.Tags)
+pred builtFrom(sv *Server, inst *serviceregistry.ServiceInstanceSpec) := sv != nil && sv.URL == serviceregistry.instURL(ref(inst)) && sv.Weight == inst.Weight && ref(sv.Tags) == ref(inst.Tags)
+
+func (sp *ServerPool) useService(instances map[string]*serviceregistry.ServiceInstanceSpec)
+  flag allocates
+  flag paths=split
+  flag frame=unchecked
+  requires sp != nil && sp.spec != nil && noNil(sp.spec.Servers)
+  requires forall n string :: (n in instances) ==> instances[n] != nil
+  ensures balancer-is-published-over-the-chosen-list: sp.loadBalancer.v != nil && balances(sp.loadBalancer.v, gLBList)
+  ensures every-pool-member-is-a-tagged-instance: (exists n string :: (n in instances) && tagged(sp, instances[n])) ==> (forall k int :: 0 <= k && k < len(gLBList) ==> (exists n string :: (n in instances) && tagged(sp, instances[n]) && builtFrom(gLBList[k], instances[n])))
+  ensures every-tagged-instance-is-a-pool-member: forall n string :: (n in instances) && tagged(sp, instances[n]) ==> (exists k int :: 0 <= k && k < len(gLBList) && builtFrom(gLBList[k], instances[n]))
+  ghost at call[1] createLoadBalancer: gLBList := servers
+  ghost at call[1] URL: gPosOf := store(gPosOf, keys$1[idx$1], len(servers))
+  ghost at call[1] URL: gSrcOf := store(gSrcOf, len(servers), keys$1[idx$1])
+  invariant[1] shape: noNil(servers) && len(servers) <= idx$1 && sp.spec != nil
+  invariant[1] members-are-tagged-visited-instances: forall k int :: 0 <= k && k < len(servers) ==> dom$1[gSrcOf[k]] && pos$1[gSrcOf[k]] < idx$1 && tagged(sp, instances[gSrcOf[k]]) && builtFrom(servers[k], instances[gSrcOf[k]])
+  invariant[1] tagged-visited-instances-are-members: forall q int :: 0 <= q && q < idx$1 && tagged(sp, instances[keys$1[q]]) ==> 0 <= gPosOf[keys$1[q]] && gPosOf[keys$1[q]] < len(servers) && builtFrom(servers[gPosOf[keys$1[q]]], instances[keys$1[q]])
+  invariant[2] shape: noNil(servers) && len(servers) <= idx$1 && sp.spec != nil && 0 <= idx$1 && idx$1 < len(keys$1) && instance == instances[keys$1[idx$1]] && instance != nil
+  invariant[2] no-earlier-tag-matches: forall t int :: 0 <= t && t < idx$2 ==> !stringtool.inSlice(sp.spec.ServerTags[t], instance.Tags)
+  invariant[2] members-are-tagged-visited-instances: forall k int :: 0 <= k && k < len(servers) ==> dom$1[gSrcOf[k]] && pos$1[gSrcOf[k]] < idx$1 && tagged(sp, instances[gSrcOf[k]]) && builtFrom(servers[k], instances[gSrcOf[k]])
+  invariant[2] tagged-visited-instances-are-members: forall q int :: 0 <= q && q < idx$1 && tagged(sp, instances[keys$1[q]]) ==> 0 <= gPosOf[keys$1[q]] && gPosOf[keys$1[q]] < len(servers) && builtFrom(servers[gPosOf[keys$1[q]]], instances[keys$1[q]])
 
 // ---- C10 / C07: one backend attempt (doHandle), per-attempt state of the retried handler, error classification ----
 ghost var gAttempts int       // attempts made for this client request
